@@ -97,6 +97,7 @@ type FuncGen struct {
 	logList []*logInfo
 	heapQueue [][2]string
 	undecided []Undecided
+	siteUsed  map[*SiteAssert]bool
 }
 
 type iterInfo struct {
@@ -305,6 +306,17 @@ func (g *Gen) GenFunc(fn *ssa.Function) (*FuncGen, error) {
 	fg.finishLoops()
 	fg.finishReturns()
 	fg.flushHeaps()
+	if fg.c != nil {
+		for _, sa := range fg.c.Sites {
+			if !fg.siteUsed[sa] {
+				tags := sa.C.Tags
+				if len(tags) == 0 {
+					tags = fg.c.Tags
+				}
+				fg.undecided = append(fg.undecided, Undecided{Func: fg.key, Pos: sa.C.Pos, Text: sa.C.Text, Reason: fmt.Sprintf("no call or allocation site matches `at %s#%d`", sa.Callee, sa.N), Tags: tags})
+			}
+		}
+	}
 	if fg.err != nil {
 		return nil, fg.err
 	}
@@ -1190,7 +1202,20 @@ func (fg *FuncGen) finishLoops() {
 	}
 }
 
+// coverReturns (thorough tier): one reachability cover per return statement
+var coverReturns bool
+
 func (fg *FuncGen) finishReturns() {
+	if coverReturns {
+		for k, b := range fg.retBlocks {
+			o := &Obligation{Name: fmt.Sprintf("%s/cover.ret%d", shortKey(fg.key), k+1), Kind: "cover", Func: fg.key, Guard: fg.reach[b], Goal: "false", Expect: "sat",
+				Params: fg.paramConsts, Block: b.Index, Via: -1, Text: "the path condition of this return is satisfiable under all assumptions made on the way (vacuity guard)"}
+			if in := b.Instrs[len(b.Instrs)-1]; in.Pos().IsValid() {
+				o.Pos = fg.g.pos(in.Pos())
+			}
+			fg.obls = append(fg.obls, o)
+		}
+	}
 	if fg.c == nil {
 		return
 	}
